@@ -40,6 +40,7 @@ ASSUMPTIONS = [
 NUCS = ["U235", "U238", "FE56"]
 PARAMS = ["power", "kgHM"]          # scalar volume-integrated block parameters
 LISTPARAM = "mgFlux"               # a list-valued one (2 groups)
+CORNERPARAM, EDGEPARAM = "pointsCornerFastFluxFr", "pointsEdgeDpa"   # ParamLocation.CORNERS / EDGES, 6 entries
 NPAR = len(PARAMS) + 2
 NGEO = len(NUCS) + 1
 OPS = ["convert", "restore", "addEdge", "removeEdge"]
@@ -112,6 +113,12 @@ def build_case(spec):
         for b in a:
             for p in PARAMS:
                 b.p[p] = rng.randint(1, 512) / 8.0
+            # a bowed assembly: non-zero displacement vector; per-corner / per-edge vectors (6 distinct entries)
+            b.p.displacementX = rng.choice([-1, 1]) * rng.randint(1, 64) / 16.0
+            b.p.displacementY = rng.choice([-1, 1]) * rng.randint(1, 64) / 16.0
+            c0 = rng.randint(1, 100)
+            b.p[CORNERPARAM] = [(c0 + 7 * q) / 4.0 for q in range(6)]
+            b.p[EDGEPARAM] = [(c0 + 11 * q + 1) / 8.0 for q in range(6)]
             vals = [rng.randint(1, 512) / 8.0, rng.randint(1, 512) / 8.0]
             b.p[LISTPARAM] = vals if spec.get("arr", "list") == "list" else np.array(vals)
         if spec.get("arr") == "aliased" and cell_of(a) == (0, 0):
@@ -184,9 +191,14 @@ def par_totals(core):
     return tot
 
 
+def spatial_sig(b):
+    return (float(b.p.displacementX), float(b.p.displacementY), tuple(float(x) for x in b.p[CORNERPARAM]),
+            tuple(float(x) for x in b.p[EDGEPARAM]))
+
+
 def block_sig(b):
     return (b.name, tuple(float(b.p[p]) for p in PARAMS), tuple(float(x) for x in b.p[LISTPARAM]),
-            float(b.getHeight()), int(round(float(b.p.orientation[2]))))
+            float(b.getHeight()), int(round(float(b.p.orientation[2])))) + spatial_sig(b)
 
 
 def snapshot(r, with_mass):
@@ -340,6 +352,7 @@ def run_case(ctx, spec, ops, compare=True):
     o, r = build_case(spec)
     core = r.core
     ch = gc.ThirdCoreHexToFullCoreChanger(o.cs)
+    ch2 = gc.ThirdCoreHexToFullCoreChanger(o.cs)     # a second (inner) changer, used by the ops convert2 / restore2
     ec = gc.EdgeAssemblyChanger()
     req = [init_line(r)]
     impl = [None]            # filled with the model's echo of init (not compared with impl)
@@ -367,9 +380,13 @@ def run_case(ctx, spec, ops, compare=True):
                 "par": {cell_of(a): par_of(a) for a in src},
                 "src": {cell_of(a): (a._verifSrc, int(round(float(a[0].p.orientation[2]))), a.name) for a in src},
                 "names": {a.name for a in core},
+                "spatial": {cell_of(a): [spatial_sig(b) for b in a] for a in src},
                 "objs": {id(x) for a in src for x in [a] + a.getChildren(deep=True)},
                 "calc": [core.calcTotalParam(p, generationNum=2, addSymmetricPositions=True) for p in PARAMS],
             }
+        if op in ("convert2", "restore2") and not (core.isFullCore and not ch2._newAssembliesAdded):
+            continue                          # the inner changer is only exercised on a core the outer one expanded
+        before_inner = canon_state(r, ch, ec) if op in ("convert2", "restore2") else None
         if op == "solveScale":
             pairs = edge_pairs(core)
             if core.isFullCore or not pairs or not lines_aligned(core):
@@ -390,6 +407,10 @@ def run_case(ctx, spec, ops, compare=True):
                             b.p[LISTPARAM] = [v / 2.0 for v in vals]
                             bi.p[LISTPARAM] = [v / 2.0 for v in vals]
                     ec.scaleParamsRelatedToSymmetry(core)
+                elif op == "convert2":
+                    ch2.convert(r)
+                elif op == "restore2":
+                    ch2.restorePreviousGeometry(r)
                 elif op == "convert":
                     ch.convert(r)
                 elif op == "restore":
@@ -416,6 +437,10 @@ def run_case(ctx, spec, ops, compare=True):
         req.append("par %d" % NPAR)
         impl.append(common.ratlist(par_totals(core)))
         # ---------------- implementation-side oracle
+        if before_inner is not None and raised is None and canon_state(r, ch, ec) != before_inner:
+            fails.append(Failure("inner-changer-noop-touches-core", "a second changer whose convert() was a no-op (core already "
+                                 "full) leaves the full core untouched, also in its restorePreviousGeometry()", case,
+                                 observed={"symmetry": str(core.symmetry), "assemblies": len(core)}, note=tag))
         lookups_ok(r, fails, case, tag)
         if raised is None:
             symmetry_ok(r, fails, case, tag, base_totals)
@@ -537,6 +562,27 @@ def check_full(r, pre, fails, case, tag):
                 fails.append(Failure("copy-rotated", "each copy is rotated by the angle of its image cell", case,
                                      observed=[x, o2], expected=orient + 120 * k, note=tag))
                 return
+            # displacement vector rotated by the copy's angle (from the ORIGINAL x and y), corner / edge vectors shifted
+            # by two positions per 120 degrees (iterables.pivot(v, -rotNum)); the source itself untouched
+            ang = math.radians(120.0 * k)
+            for bi, (b, (dx, dy, corn, edge)) in enumerate(zip(a, pre["spatial"][c])):
+                ex = dx * math.cos(ang) - dy * math.sin(ang)
+                ey = dx * math.sin(ang) + dy * math.cos(ang)
+                gx, gy = float(b.p.displacementX), float(b.p.displacementY)
+                tol = 1e-9 * max(1.0, math.hypot(dx, dy))
+                if abs(gx - ex) > tol or abs(gy - ey) > tol:
+                    fails.append(Failure("copy-rotated-displacement", "each copy's displacement vector is its source's "
+                                         "rotated by 120 / 240 degrees (both components, length preserved)", case,
+                                         observed=[x, bi, gx, gy], expected=[ex, ey], note=tag))
+                    return
+                sh = (2 * k) % 6
+                wantc = tuple(corn[-sh:] + corn[:-sh]) if sh else tuple(corn)
+                wante = tuple(edge[-sh:] + edge[:-sh]) if sh else tuple(edge)
+                if tuple(float(v) for v in b.p[CORNERPARAM]) != wantc or tuple(float(v) for v in b.p[EDGEPARAM]) != wante:
+                    fails.append(Failure("copy-rotated-boundary-params", "corner / edge vectors of a copy are its source's "
+                                         "shifted by the copy's rotation", case,
+                                         observed=[x, bi, list(b.p[CORNERPARAM])], expected=list(wantc), note=tag))
+                    return
             if k == 0 and a.name != name:
                 fails.append(Failure("source-keeps-name", "source assemblies keep their names", case,
                                      observed=a.name, expected=name, note=tag))
@@ -569,7 +615,8 @@ def gen_spec(rng, kind):
 def gen_ops(rng, n):
     ops = []
     for _ in range(n):
-        ops.append(rng.choice(["convert", "restore", "addEdge", "removeEdge", "convert", "restore", "solveScale", "addEdge"]))
+        ops.append(rng.choice(["convert", "restore", "addEdge", "removeEdge", "convert", "restore", "solveScale", "addEdge",
+                               "convert2", "restore2"]))
     return ops
 
 
@@ -580,7 +627,7 @@ def in_model_domain(spec, ops):
 
 def run(ctx):
     rng = ctx.rng
-    ncases = ctx.pick(19, 150)
+    ncases = ctx.pick(20, 150)
     plan = []
     # fixed corpus first: the design-round probes and the excluded points
     plan.append(({"rings": 9, "holes": [], "edges0": False, "vseed": 1}, ["convert", "restore"]))
@@ -599,6 +646,9 @@ def run(ctx):
                  ["addEdge", "convert", "restore"]))
     plan.append(({"rings": 7, "holes": [[2, -1], [4, -2], [6, -3], [1, 1]], "edges0": False, "vseed": 14, "track": True},
                  ["addEdge", "convert", "restore", "addEdge", "convert"]))
+    # nested changers: outer.convert, inner.convert (no-op: already full), inner.restore (nothing to undo), outer.restore
+    plan.append(({"rings": 4, "holes": [], "edges0": False, "vseed": 15},
+                 ["convert", "convert2", "restore2", "restore", "convert", "convert2", "restore2", "restore"]))
     plan.append((gen_spec(rng, "nocentre"), ["convert", "restore"]))
     plan.append((gen_spec(rng, "centreonly"), ["convert", "restore"]))
     plan.append((gen_spec(rng, "jnonneg"), ["addEdge", "convert", "restore"]))
